@@ -102,7 +102,14 @@ Json::Value baseline(uint64_t seed) {
   w.cgs.push_back(mkCg(r, "sys/b", 1, pid));
   w.cgs.push_back(mkCg(r, "work", 0, pid));
   w.cgs.push_back(mkCg(r, "work/w1", 25, pid));
-  w.cgs.push_back(mkCg(r, "work/w2", 0, pid));
+  {
+    // the biggest swap user, so that the non-recursive kill_by_swap_usage takes
+    // this cgroup (which has a child) as a whole
+    Cg w2 = mkCg(r, "work/w2", 1, pid);
+    w2.swap_current = int64_t(1) << 34;
+    w2.swap_max = kMax;
+    w.cgs.push_back(w2);
+  }
   w.cgs.push_back(mkCg(r, "work/w2/c", 3, pid));
   w.cgs.push_back(mkCg(r, "work/w3", 2, pid));
   Host& h = w.host;
@@ -141,8 +148,10 @@ Json::Value baseline(uint64_t seed) {
   for (auto& kp : killPlugins()) {
     Json::Value k = plug(kp, {{"cgroup", ki % 2 ? "work/*,sys" : "work,sys/*"}, {"recursive", ki % 2 ? "false" : "true"}, {"post_action_delay", "0"}});
     if (kp == "kill_by_pressure") k["args"]["resource"] = "memory";
-    if (ki == 1) k["args"]["kernelkill"] = "true";
-    if (ki == 3) k["args"]["dry"] = "true";
+    // ki 1 and 3 are the non-recursive ones: plain user-space kills of a
+    // target together with its children (work/w2 + work/w2/c)
+    if (ki == 2) k["args"]["kernelkill"] = "true";
+    if (ki == 4) k["args"]["dry"] = "true";
     cfg["rulesets"].append(rsOf("k" + std::to_string(ki), vdet("d" + std::to_string(ki)), {k, plug("vp_action", {{"id", "after" + std::to_string(ki)}})}));
     ki++;
   }
